@@ -292,3 +292,33 @@ Definition parse_dec_chars (comma : bool) (s : list ascii) : option Q :=
   end.
 Definition parse_dec (s : string) : option Q := parse_dec_chars false (chars s).
 Definition parse_dec_comma (s : string) : option Q := parse_dec_chars true (chars s).
+
+(* spaces* '-'? digit ('.' digits* )? ('e'|'E') ('+'|'-') digits+ end  ->  the rational it denotes *)
+Definition parse_sci_chars (s : list ascii) : option Q :=
+  let s1 := skip_spaces s in
+  let '(neg, s2) := match s1 with c :: r => if Ascii.eqb c "-"%char then (true, r) else (false, s1) | [] => (false, []) end in
+  let '(ip, s3) := span_digits false s2 in
+  match ip with
+  | [_] =>
+    let '(fp, s4) := match s3 with
+                     | c :: r => if Ascii.eqb c "."%char then span_digits false r else ([], s3)
+                     | [] => ([], [])
+                     end in
+    match s4 with
+    | e :: sg :: r =>
+        if Ascii.eqb e "e"%char || Ascii.eqb e "E"%char then
+          let '(xd, s5) := span_digits false r in
+          match xd, s5 with
+          | _ :: _, [] =>
+              if Ascii.eqb sg "-"%char || Ascii.eqb sg "+"%char then
+                Some ((if neg then -(1) else 1) * (inject_Z (dval (ip ++ fp)) / inject_Z (pow10 (length fp)))
+                      * Qpow10 (if Ascii.eqb sg "-"%char then - dval xd else dval xd))%Q
+              else None
+          | _, _ => None
+          end
+        else None
+    | _ => None
+    end
+  | _ => None
+  end.
+Definition parse_sci (s : string) : option Q := parse_sci_chars (chars s).
